@@ -118,7 +118,7 @@ func checkSerialises(res map[string]interface{}) {
 
 // C07_envelope_bytes: malformed requests: every byte string up to N bytes.
 func C07_envelope_bytes() {
-	n := lenChoice("len", 3, 4)
+	n := lenChoice("len", 4, 6)
 	src := sym.Bytes("src", n)
 	var log []string
 	root := kitRoot(newGraphWith(&log, 1, false))
